@@ -301,7 +301,7 @@ class OPAdapter(RoutingAdapter):
             tours = []
             if "target" in it.meta:
                 tours.append(list(it.meta["target"]))
-            for _ in range(3 if tier == "quick" else 8):
+            for _ in range(2 if tier == "quick" else 8):
                 k = rng.randint(1, min(n, 5))
                 tours.append(rng.sample(range(1, n + 1), k))
             for cs in tours:
@@ -311,7 +311,7 @@ class OPAdapter(RoutingAdapter):
                 if len(cs) >= 2:
                     m = len(cs) // 2
                     triples.append((it, "via-depot", cs[:m] + [0] + cs[m:] + [0]))
-            if len(triples) > (400 if tier == "quick" else 2500):
+            if len(triples) > (180 if tier == "quick" else 2500):
                 break
         out.update(_handsol.check_solutions(self, ctx, tier, triples, "handbuilt"))
         return out
